@@ -371,7 +371,15 @@ func ruleMapOrder(c *Ctx, r *R) {
 		r.ok(okLess && nNew == 1, root+"|heap-less-by-idx", fn.Pos(), "the reorder heap must order results by a.idx < b.idx (min-heap on the source index)")
 		// dispatcher numbering: the idx field of the value handed over is a counter starting at 0 incremented by 1 per iteration
 		okNum := false
-		for _, g := range withAnon(fn) {
+		numFns := withAnon(fn)
+		if bi := bgAnalyse(c, root); bi != nil {
+			for _, g := range bi.all { // the dispatcher's loop may live in a named function (feedMapStream)
+				if g.Parent() == nil {
+					numFns = append(numFns, g)
+				}
+			}
+		}
+		for _, g := range numFns {
 			instrs(g, func(b *ssa.BasicBlock, i int, in ssa.Instruction) {
 				st, ok := in.(*ssa.Store)
 				if !ok {
@@ -638,6 +646,31 @@ func ruleMapCloseOut(c *Ctx, r *R) {
 					}
 				}
 			})
+		}
+		// … or the dispatcher's body is a named function that is handed the work channel and defers its close in its entry block
+		if !okIn && mapChansOf(c, root).work != nil {
+			var workMk *ssa.MakeChan
+			for _, st := range storesTo(mapChansOf(c, root).work) {
+				if mk, ok := st.Val.(*ssa.MakeChan); ok {
+					workMk = mk
+				}
+			}
+			if bi := bgAnalyse(c, root); bi != nil && workMk != nil {
+				for _, g := range bi.all {
+					if g.Parent() != nil || len(g.Blocks) == 0 {
+						continue
+					}
+					for _, in := range g.Blocks[0].Instrs {
+						if d, ok := in.(*ssa.Defer); ok {
+							if b2, ok := d.Call.Value.(*ssa.Builtin); ok && b2.Name() == "close" {
+								if mks := madeChans(d.Call.Args[0]); len(mks) == 1 && mks[workMk] {
+									okIn = true
+								}
+							}
+						}
+					}
+				}
+			}
 		}
 		r.ok(okIn, root+"|dispatcher-closes-in", fn.Pos(), "the dispatcher must close the work channel on every exit (the workers range over it)")
 	}
